@@ -39,6 +39,25 @@ def read_rows(run):
     return rows
 
 
+def stored_paths_differ(run):
+    """What a later restart would load: every live path as stored on disk equals the path in memory."""
+    from infretis.classes.path import load_path
+
+    out = []
+    for traj in run.state._trajs[:-1]:
+        d = os.path.join(run.dir, "load", str(traj.path_number))
+        try:
+            lp = load_path(d)
+        except BaseException as e:  # noqa: BLE001
+            out.append(("live-path-does-not-load", f"path {traj.path_number}: {type(e).__name__}: {e}"))
+            continue
+        a = [round(float(pp.order[0]), 6) for pp in lp.phasepoints]
+        b = [round(float(pp.order[0]), 6) for pp in traj.phasepoints]
+        if a != b:
+            out.append(("live-path-on-disk-differs", f"path {traj.path_number}: stored orders {a}, in memory {b}"))
+    return out
+
+
 def scenario(spec, prefix, n_events, restart_before, crash_at, torn, wd, buffered=False, crash2=None):
     """Returns dict(effects=[labels]) in count mode (crash_at None) or dict(violations=[...])."""
     ch = Chooser(prefix)
@@ -137,6 +156,9 @@ def scenario(spec, prefix, n_events, restart_before, crash_at, torn, wd, buffere
         for k in range(len(run.inflight) + n + 1):
             ch.forced["pick.choice"] = [diag_pick]
             run.event()
+            for v in stored_paths_differ(run):
+                if v not in out:
+                    out.append(v)
     except l1.Violation as v:
         return dict(violations=[("continue:" + v.sig, v.msg)], label=label, effects2=effects2, tree=tree)
     except Exception as e:  # noqa: BLE001
@@ -147,6 +169,7 @@ def scenario(spec, prefix, n_events, restart_before, crash_at, torn, wd, buffere
         return dict(violations=[("continue-raises", f"{type(e).__name__}: {e} in {where}")], label=label, effects2=effects2, tree=tree)
     finally:
         ch.forced = []
+    out += stored_paths_differ(run)
     rows = read_rows(run)
     live = run.state.live_paths()
     tn = run.state.config["current"]["traj_num"]
